@@ -139,6 +139,16 @@ func (e *ExecutionConfig) UnmarshalJSON(input []byte) error {
 		minValue = minValue.Mul(weiPerETH)
 		e.MinValue = &minValue
 	}
+	for address, relay := range data.Relays {
+		if relay == nil {
+			return fmt.Errorf("relay %s has no configuration", address)
+		}
+	}
+	for i, proposer := range data.Proposers {
+		if proposer == nil {
+			return fmt.Errorf("proposer %d has no configuration", i)
+		}
+	}
 	e.Relays = data.Relays
 	e.Proposers = data.Proposers
 
